@@ -20,7 +20,7 @@ RULE = (
     "columns, spelling variant: alias / no alias / subquery source / qualified names / lower-case keywords, optional enclosing "
     "BEGIN..ROLLBACK). Non-trivial = the model says at least one row is inserted, updated or deleted; distinct = distinct cases."
 )
-REQUIRED = ["cmp_target", "cmp_counts", "cmp_source_unchanged", "cmp_helper_invisible", "merges_with_effect", "merges_without_effect",
+REQUIRED = ["after_failed_merge", "cmp_committed", "cmp_target", "cmp_counts", "cmp_source_unchanged", "cmp_helper_invisible", "merges_with_effect", "merges_without_effect",
             "cmp_rollback"]
 ASSUMPTIONS = [
     "only deterministic merges are generated (no target row joins more than one source row)",
@@ -100,6 +100,7 @@ def gen_cases(tier: str, seed: int):
             # the same merge over strings with backslashes in them (in rows, SET / VALUES constants and conditions)
             case = _with_backslashes(case)
             case["backslashes"] = True
+        case["after_failed_merge"] = r.random() < 0.2
         yield case
 
 
@@ -329,6 +330,14 @@ def run_case(case: dict, env: core.Env) -> None:
     env.cover("variant", variant)
     env.cover("clause_shape", "+".join(sorted(f"{cl[0]}:{cl[2]}{'?' if cl[1] else ''}" for cl in case["clauses"])))
     sql = merge_sql(case)
+    if case.get("after_failed_merge"):
+        # the session has a failed MERGE behind it (a mistyped column): it changed nothing and leaves nothing open
+        env.count("after_failed_merge")
+        bad = core.run_stmt(cur, f"MERGE INTO {tgt_fq if other_schema else 'TGT'} t USING SRC s ON t.K = s.K WHEN MATCHED THEN UPDATE SET NO_SUCH_COLUMN = s.V "
+                                 "WHEN NOT MATCHED THEN INSERT (K, V, W) VALUES (s.K, s.NO_SUCH_COLUMN, s.W)")
+        if bad["ok"]:
+            env.witness("C12/merge-naming-an-unknown-column-accepted", str(bad.get("rows")))
+            return
     if case["txn"]:
         cur.execute("BEGIN")
     out = core.run_stmt(cur, sql)
@@ -374,6 +383,17 @@ def run_case(case: dict, env: core.Env) -> None:
         env.count("cmp_rows_outside_on")
         if outside - got:
             env.witness("C12/target-contents/rows-that-do-not-satisfy-ON-were-changed", f"{sql}: missing untouched rows {dict(outside - got)}; t={case['t']} s={case['s']}"[:1500])
+            return
+    if not case["txn"]:
+        # autocommit: what the session sees is what every other session sees
+        env.count("cmp_committed")
+        if read("TGT") != got:
+            env.witness("C12/merge-not-committed-in-autocommit" + ("/after-failed-merge" if case.get("after_failed_merge") else ""),
+                        f"{sql}: the session sees {dict(got)} but another session {dict(read('TGT'))}"[:900])
+            try:
+                conn.rollback()
+            except Exception:  # noqa: BLE001
+                pass
             return
     if got != exp:
         env.witness(f"C12/target-contents/{ftag}", f"{sql}: extra {dict(got - exp)} missing {dict(exp - got)}; t={case['t']} s={case['s']}"[:1500])
